@@ -66,3 +66,10 @@ reg('C10', 'runtime monitoring: round-trip oracle through API-built elements, ex
     'quick: every code point U+0000-U+2FFF, surrogates, plane boundaries and samples in four positions; thorough: every '
     'code point U+0000-U+10FFFF; plus random hostile strings.',
     'Trusted: bs4 stores arbitrary strings as id/class/attribute values unchanged; NUL maps to U+FFFD as the statement says.')
+reg('C11', 'runtime monitoring: reference-model oracle per document kind over seven materialisations of one logical tree',
+    'The same generated tree (ASCII and non-ASCII cased tag/attribute names, type/title/data-* values) is materialised '
+    'as HTML by three parsers and the bs4 API, as XML (parsed and API-built) and as XHTML; every select() with '
+    'case-variant selectors (with/without i/s) is compared with the reference case rules evaluated on a snapshot of '
+    'that very tree; every HTML-only pseudo-class is run on non-XHTML XML documents (incl. XHTML-namespaced '
+    'descendants under a foreign root) and must select nothing.',
+    'Trusted: vlib/refsel.py case rules; ASCII-only folding in generated i/type value comparisons.')
